@@ -2,8 +2,7 @@
 
 Model: Solvers/Drivers.v (generic solver state machine, run/step/programs,
 run_split, flag model), Solvers/DriversInst.v (CG / ISTA / FISTA over Qc,
-fista_run_split_refuted), State/Heap.v (ownership analysis, no_caller_write,
-normal_eq_inplace_refuted).  Correspondence (this file): random driving
+fista_run_split), State/Heap.v (ownership analysis, no_caller_write).  Correspondence (this file): random driving
 programs on the IMPLEMENTATION in three styles (function, class.solve(),
 manual setup + Step/Run instalments + finalize), compared with each other and
 with the model's prediction (evaluated in Coq) of the iteration counter
@@ -25,16 +24,9 @@ from . import common
 PID = "C11"
 
 # Genuine defects of the unchanged code (proposed entries for known_findings.json)
-PROPOSED_KNOWN = [
-    {"id": "C11-fista-instalments", "property": "C11", "solver": "fista",
-     "trigger": "FISTA.run called again when self.iiter >= 2 (or run after >= 2 manual steps)",
-     "what": "FISTA driven in several run() instalments differs from one run: the extrapolated point z is a local "
-             "of run (z = x.copy() at every entry) while the momentum t stays on self"},
-    {"id": "C11-normaleq-identity-inplace", "property": "C11", "solver": "normal_equations_inversion",
-     "trigger": "Op.rmatvec returns its input array (Identity(N, inplace=True)) and Regs is not empty",
-     "what": "normal_equations_inversion overwrites the caller's y: self.y_normal = Op.rmatvec(y) is y itself for a "
-             "view-returning Op and setup then does self.y_normal += epsR**2 * Reg.rmatvec(datareg)"},
-]
+PROPOSED_KNOWN = []   # both defects found while building this check were repaired in /repo:
+#   4fbea6d  FISTA.run in instalments restarted from z = x with a stale momentum t (z was a local of run)
+#   1f77362  normal_equations_inversion overwrote the caller's y for view-returning operators (in-place +=)
 
 MY_V = ["Solvers/Drivers.v", "State/Heap.v", "Solvers/DriversInst.v", "Corr/CheckC11.v"]
 TOL = 1e-12
@@ -237,7 +229,9 @@ class Driver:
         else:
             self.x = s.run(self.x, niter=k)
             if self.solver == "fista":
-                self.z = self.x.copy()   # run returns x only
+                # run returns x only; the extrapolated point is published as solver.z (x itself before the first step)
+                z = getattr(s, "z", None)
+                self.z = z if (z is not None and s.iiter > 0) else self.x.copy()
 
     def ok(self):
         """the non-budget part of the guard of run, as the code evaluates it"""
@@ -448,7 +442,7 @@ def check_drive(case, emit=None):
 def model_predict(solver, oks, prog):
     """Python mirror of Drivers.apredict — used ONLY by replay and by the
     search/shrink step; the check itself evaluates the prediction in Coq."""
-    fresh_ok, zlocal = solver in ("ista", "fista"), solver == "fista"
+    fresh_ok, zlocal = solver in ("ista", "fista"), False   # FISTA keeps z on self since 4fbea6d
     i, rs, fresh, out = 0, [], True, []
 
     def ok():
@@ -699,14 +693,12 @@ CHECKS = {"drive": check_drive, "rest": check_rest, "nd": check_nd, "exc": check
 
 
 def known_for(p):
-    """Match a problem against the recorded genuine defects by trigger."""
+    """Match a problem against recorded, still-present defects (known_findings.json entries of this property
+    carrying 'solver' and 'key'); none are recorded for C11."""
     case = p["case"]
-    solver = case["sys"]["solver"]
-    ids = {k["id"] for k in PROPOSED_KNOWN} | {k.get("id") for k in common.load_known()}
-    if p["key"] == "drive-diverges" and solver == "fista" and p.get("restarts"):
-        return "C11-fista-instalments" if "C11-fista-instalments" in ids else None
-    if solver == "nei" and case["sys"]["op"] == "ident" and p["key"] in ("input:y", "alias:y_normal"):
-        return "C11-normaleq-identity-inplace"
+    for k in list(PROPOSED_KNOWN) + [f for f in common.load_known() if f.get("property") == PID]:
+        if k.get("solver") == case["sys"]["solver"] and k.get("key") and p["key"].startswith(k["key"]):
+            return k
     return None
 
 
@@ -805,7 +797,7 @@ def main(tier):
                     N = r.randint(3, n + 1) if solver in ("ista", "fista") else r.randint(2, n)
                     N = max(N, 2)
                     # every other system: make the stopping test fire inside the budget
-                    early = (isys % 2 == 1) and solver in ("cg", "cgls", "ista", "omp")
+                    early = (isys % 2 == 1) and solver in ("cg", "cgls", "ista", "fista", "omp")
                     if early:
                         probe = Driver(solver, make_op(sysd), dec(sysd["y"], cplx), dec(sysd["x0"], cplx), N, sysd["par"])
                         probe.setup()
@@ -838,7 +830,7 @@ def main(tier):
                         hcases.append("{| h_id := %d%%nat; h_fresh_ok := %s; h_zlocal := %s; h_tr := %s; h_prog := %s; "
                                       "h_iiters := %s; h_same := %s |}" % (
                                           hid, "true" if solver in ("ista", "fista") else "false",
-                                          "true" if solver == "fista" else "false", blit(tr), prog_coq(prog),
+                                          "false", blit(tr), prog_coq(prog),
                                           common.natlist(rec["iiters"]), "true" if rec["same"] else "false"))
                         key = (solver, cplx, isys, json.dumps(prog))
                         if rec["nontrivial"]:
@@ -1028,11 +1020,6 @@ def main(tier):
     for hid_, (case, rec) in hmeta.items():
         codes = hfail.get(hid_, [])
         probs = drive_verdict(case, rec, codes)
-        if 3 in codes:
-            # the model predicts a harmful restart but the implementation agrees with the single run:
-            # the property holds on this input (e.g. the recorded FISTA defect was repaired) - not an alarm
-            R.notes.append("model predicts divergence for %s program %s but the implementation agrees with one run "
-                           "(known finding no longer reproduces?)" % (case["sys"]["solver"], case["prog"]))
         if not codes:
             agree += 1
         allprobs += probs
@@ -1041,10 +1028,6 @@ def main(tier):
         # the exact Qc execution of the model disagrees with the implementation: search = the style comparison above;
         # if that found nothing for this case, report the broken correspondence
         mine = [p for p in allprobs if p["case"] is case]
-        if case["sys"]["solver"] == "fista" and rec["same"] and model_predict("fista", rec["oks"], case["prog"])[1]:
-            # the faithful model reproduces the recorded FISTA defect; the implementation satisfies the property here
-            R.notes.append("exact FISTA model (z local to run) differs from the implementation on %s, which agrees with one run" % case["prog"])
-            continue
         if not mine:
             allprobs.append(problem("numeric-model", "%s: implementation result of program %s differs from the exact model run "
                                     "(codes %s; Corr.CheckC11.ncheck)" % (case["sys"]["solver"], case["prog"], codes), case, no_input=True))
@@ -1059,10 +1042,9 @@ def main(tier):
     # ---------------- report
     seen = set()
     for p in allprobs:
-        kid = known_for(p)
-        if kid:
-            what = [k["what"] for k in PROPOSED_KNOWN if k["id"] == kid][0]
-            R.known_finding(kid, what)
+        kf = known_for(p)
+        if kf:
+            R.known_finding(kf["id"], kf["what"])
             continue
         case = p["case"]
         sig = (p["key"], case["sys"]["solver"], case["kind"])
